@@ -15,6 +15,7 @@ import (
 	"reflect"
 	"runtime"
 	"strings"
+	"sync"
 	"testing"
 )
 
@@ -139,7 +140,7 @@ func FNV128a(b []byte) [16]byte {
 	copy(r[:], h.Sum(nil))
 	return r
 }
-func Yield() {}
+func Yield() { runtime.Gosched() }
 func Logf(format string, a ...interface{}) {
 	if os.Getenv("VSYM_LOG") != "" {
 		fmt.Printf("VSYM-LOG "+format+"\n", a...)
@@ -292,9 +293,11 @@ func RunReplays(t *testing.T, hs map[string]func()) {
 			idx++
 			continue
 		}
+		repeat := 1
+		if v := os.Getenv("VSYM_REPEAT"); v != "" {
+			fmt.Sscanf(v, "%d", &repeat)
+		}
 		func(i int) {
-			Reset()
-			loadFile(fs[1])
 			defer func() {
 				if r := recover(); r != nil {
 					if a, ok := r.(Abort); ok {
@@ -305,12 +308,16 @@ func RunReplays(t *testing.T, hs map[string]func()) {
 					fmt.Printf("VSYM-RESULT %d %s panic: %s @site %s\n", i, fs[0], msg, panicSite())
 				}
 			}()
-			h()
-			if len(Failures) > 0 {
-				fmt.Printf("VSYM-RESULT %d %s failed: %v\n", i, fs[0], Failures)
-			} else {
-				fmt.Printf("VSYM-RESULT %d %s ok\n", i, fs[0])
+			for rep := 0; rep < repeat; rep++ {
+				Reset()
+				loadFile(fs[1])
+				h()
+				if len(Failures) > 0 {
+					fmt.Printf("VSYM-RESULT %d %s failed: %v\n", i, fs[0], Failures)
+					return
+				}
 			}
+			fmt.Printf("VSYM-RESULT %d %s ok\n", i, fs[0])
 		}(idx)
 		idx++
 	}
@@ -323,3 +330,14 @@ func LenOf(slice interface{}) int { return reflect.ValueOf(slice).Len() }
 func SwapElems(slice interface{}, i, j int) {
 	reflect.Swapper(slice)(i, j)
 }
+
+var wg sync.WaitGroup
+
+func Go(f func()) {
+	wg.Add(1)
+	go func() {
+		defer wg.Done()
+		f()
+	}()
+}
+func Join() { wg.Wait() }
